@@ -228,7 +228,9 @@ func (m Matches) uniquify() Matches {
 OUTER:
 	for _, match := range m {
 		for _, mr := range matched {
-			if match.Offset >= mr.offset && match.Offset <= mr.offset+mr.extent {
+			// [offset, offset+extent) is the matched range: a match that starts
+			// right after it is adjacent to it, not contained in it.
+			if match.Offset >= mr.offset && match.Offset < mr.offset+mr.extent {
 				continue OUTER
 			}
 		}
